@@ -307,14 +307,20 @@ psf_fseek (SF_PRIVATE *psf, sf_count_t offset, int whence)
 {	sf_count_t	absolute_position ;
 
 	if (psf->virtual_io)
-	{	absolute_position = psf->vio.seek (offset, whence, psf->vio_user_data) ;
+	{	/*
+		**	psf->fileoffset is what lies in front of the sound file (an ID3v2 tag that
+		**	was skipped) : positions count from there, as on the descriptor routes.
+		*/
+		if (whence == SEEK_SET)
+			offset += psf->fileoffset ;
+		absolute_position = psf->vio.seek (offset, whence, psf->vio_user_data) ;
 		psf->file.seek_failed = (absolute_position < 0) ;
-		return absolute_position ;
+		return (absolute_position < 0) ? absolute_position : absolute_position - psf->fileoffset ;
 		} ;
 
 	/* When decoding from pipes sometimes see seeks to the pipeoffset, which appears to mean do nothing. */
 	if (psf->is_pipe)
-	{	if (whence != SEEK_SET || offset != psf->pipeoffset)
+	{	if (whence != SEEK_SET || offset != psf->pipeoffset - psf->fileoffset)
 			psf_log_printf (psf, "psf_fseek : pipe seek to value other than pipeoffset\n") ;
 		return offset ;
 		}
@@ -444,10 +450,12 @@ psf_ftell (SF_PRIVATE *psf)
 {	sf_count_t pos ;
 
 	if (psf->virtual_io)
-		return psf->vio.tell (psf->vio_user_data) ;
+	{	pos = psf->vio.tell (psf->vio_user_data) ;
+		return (pos < 0) ? pos : pos - psf->fileoffset ;
+		} ;
 
 	if (psf->is_pipe)
-		return psf->pipeoffset ;
+		return psf->pipeoffset - psf->fileoffset ;
 
 	pos = lseek (psf->file.filedes, 0, SEEK_CUR) ;
 
@@ -960,9 +968,12 @@ psf_fseek (SF_PRIVATE *psf, sf_count_t offset, int whence)
 	DWORD dwError ;
 
 	if (psf->virtual_io)
-	{	new_position = psf->vio.seek (offset, whence, psf->vio_user_data) ;
+	{	/* Positions count from psf->fileoffset (an ID3v2 tag that was skipped), as on the descriptor routes. */
+		if (whence == SEEK_SET)
+			offset += psf->fileoffset ;
+		new_position = psf->vio.seek (offset, whence, psf->vio_user_data) ;
 		psf->file.seek_failed = (new_position < 0) ;
-		return new_position ;
+		return (new_position < 0) ? new_position : new_position - psf->fileoffset ;
 		} ;
 
 	switch (whence)
@@ -1092,10 +1103,12 @@ psf_ftell (SF_PRIVATE *psf)
 	DWORD dwError ;
 
 	if (psf->virtual_io)
-		return psf->vio.tell (psf->vio_user_data) ;
+	{	pos = psf->vio.tell (psf->vio_user_data) ;
+		return (pos < 0) ? pos : pos - psf->fileoffset ;
+		} ;
 
 	if (psf->is_pipe)
-		return psf->pipeoffset ;
+		return psf->pipeoffset - psf->fileoffset ;
 
 	liDistanceToMove.QuadPart = 0 ;
 
